@@ -1423,7 +1423,38 @@ class HextRow(Suite):
                 out.append([[conv(s_), conv(p_), conv(o_)], ctx])
         if len(out) != 1:
             return ["?", len(out)]
-        return out[0]
+        return HextRow.relabel(out[0], line)
+
+    _keeps_labels = None
+
+    @staticmethod
+    def relabel(res, line):
+        """The model identifies a blank node by the label the reader computes from the document (str.replace of the
+        marker).  If the reader under test hands out fresh BNodes per document instead of keeping that label (label
+        scoping, C12), the labels themselves are unobservable: blank nodes of the answer are then named after the
+        document column they came from, provided 'same computed label <-> same node' holds inside the row."""
+        if HextRow._keeps_labels is None:
+            g = Graph()
+            g.parse(data='["_:zz", "http://e/p", "x", "http://www.w3.org/2001/XMLSchema#string", "", ""]\n', format="hext")
+            HextRow._keeps_labels = [str.__str__(s_) for s_, _, _ in g] == ["zz"]
+        if HextRow._keeps_labels:
+            return res
+        row = json.loads(line)
+        (s_, p_, o_), ctx = res
+        pairs = []   # (observed label, label computed from the column)
+        if s_[0] == "B":
+            pairs.append((s_[1], row[0].replace("_:", "")))
+        if o_[0] == "B":
+            pairs.append((o_[1], row[2].replace("_:", "")))
+        if ctx is not None and ctx[0] == "B":
+            pairs.append((ctx[1], row[5].replace("_:", "")))
+        fwd, bwd = {}, {}
+        for a, b in pairs:
+            if fwd.setdefault(a, b) != b or bwd.setdefault(b, a) != a:
+                return res    # not a function of the computed label: leave as observed (will disagree with the model)
+        def fix(x):
+            return ["B", fwd[x[1]]] if x is not None and x[0] == "B" else x
+        return [[fix(s_), p_, fix(o_)], fix(ctx)]
 
     def run_impl(self, case):
         if case["mode"] == "parse":
@@ -1473,15 +1504,19 @@ SUITES = [NtText(), TtlString(), HextRow(), RoundTrip()]
 TRUSTED = [
     "Coq 8.16.1 kernel and standard library; coqc -Q coq RV",
     "harness/c03.py drivers and the reading of Python objects into code-point lists (str.__str__, never __eq__/__hash__)",
-    "K1/K2 models coq/Codec/Model.v are tied to rdflib only by the differential suites nt_text and ttl_string "
+    "K1/K2/K3 models (coq/Codec/Model.v, Hext.v) are tied to rdflib only by the differential suites nt_text, ttl_string, hext_row "
     "(all strings of length <= 2 (quick) / <= 3 (thorough) over the alphabet \\ \" ' LF CR TAB u U 0 a e-acute U+1F600 U+00A0 "
-    "U+2028, random strings, damaged documents) and by the reflected tables coq/Gen/Tables_codec.v",
-    "Literal.__new__ / URIRef / BNode constructors are outside the text-level model: the reader model ends at the constructor "
-    "arguments (covered by C07/C09); generated datatypes in nt_text are ones rdflib does not normalise",
+    "U+2028, random strings, damaged documents, documents longer than the 2048-character read buffer with line ends on the chunk "
+    "boundaries, arbitrary six-column rows) and by the reflected tables coq/Gen/Tables_codec.v",
+    "Literal.__new__ / URIRef / BNode constructors are outside the text-level models: the reader models end at the constructor "
+    "arguments (covered by C07/C09); generated datatypes in nt_text / hext_row are ones rdflib does not normalise",
+    "K1 models characters: readline's 2048-CHARACTER buffer is modelled (parse_doc_buf), the UTF-8 decoding of a byte source "
+    "(codecs.StreamReader) is not - binary sources are exercised by conformance only (nt_text documents read from BytesIO, "
+    "roundtrip cases through real files)",
+    "K3: json.dumps / json.loads of a list of six str (CPython or orjson) is not modelled; the model is the six strings",
     "suite roundtrip is CONFORMANCE ONLY: no Coq model of the eight serialisers / six parsers; its verdict is computed by the "
     "Python isomorphism oracle harness/c03.py:isomorphic (backtracking bijection search) and Python trigger predicates "
     "harness/c03.py:triggers; the Coq side (rt_model/rt_spec) only compares two numbers",
-    "the N-Triples reader's 2048-character read buffer and codecs.StreamReader are not modelled (lines are split on the whole text)",
 ]
 ASSUMPTIONS = [
     "strings are Python str values: every code point < 0x110000 (pystr_triple); lone surrogates are not generated (UTF-8 output)",
@@ -1489,11 +1524,17 @@ ASSUMPTIONS = [
     "the shape of the reader's r_nodeid; language tags match the language-tag pattern on the whole string",
     "round trips with a base pass the same base to the parser (publicID), as a user reading back his own file would",
     "a predicate that cannot be written as an XML QName makes a graph inexpressible in RDF/XML (skipped for xml, pretty-xml)",
-    "known-finding triggers (F15..F15m) are input-side predicates that over-approximate where each defect can manifest; inside a "
+    "known-finding triggers (F15..F15q) are input-side predicates that over-approximate where each defect can manifest; inside a "
     "trigger region the round-trip verdict is not predicted, so further defects there are not looked for",
+    "hext_row: if the reader under test scopes blank-node labels to the document (fresh BNodes), labels are compared as "
+    "'function of the label computed from the column' instead of literally (HextRow.relabel)",
 ]
 RULE = ("nt_text / ttl_string: all strings of length <= 2 over the 14-character alphabet first, then random triples, escape "
-        "sequences and damaged documents; distinct by full case content. roundtrip: random graphs built from shapes (flat, tree, "
+        "sequences, damaged documents and documents of 2-12 k characters with CR/LF/CRLF on the 2048-multiples (half of them read "
+        "from a byte stream); hext_row: random triples over a vocabulary with '_' / '_:' inside labels and IRIs, and arbitrary "
+        "six-column rows; distinct by full case content. roundtrip: a quarter of the cases is padded with runs of 2-, 3- and "
+        "4-byte UTF-8 characters to 3-12 kB, written to a real file under build/c03_io and read back from the path / an open "
+        "binary file / BytesIO / bytes; random graphs built from shapes (flat, tree, "
         "dag, blank-node cycle with/without IRI entry, self-loop, orphan, well-formed / nested / subject lists, 14 kinds of "
         "malformed lists) over a small IRI vocabulary plus up to 3 exotic IRIs, literals over the same alphabet, 22 datatypes with "
         "canonical and non-canonical lexical forms, language tags; one of 8 formats x base x prefix bindings per case; "
